@@ -1533,7 +1533,9 @@ class VM:
             # Sort using Python's sort with custom key
             from functools import cmp_to_key
 
-            arr._elements.sort(key=cmp_to_key(compare_fn))
+            # Sort a copy and write it back: the comparator may read or change the array
+            items = sorted(arr._elements, key=cmp_to_key(compare_fn))
+            arr._elements[: len(items)] = items
             return arr
 
         methods = {
